@@ -871,7 +871,8 @@ fn first_forbidden(msgs: &[CosmosMsg], allow: &Vis, perm: &Permissions) -> Optio
 fn send_totals(msgs: &[CosmosMsg]) -> BTreeMap<String, Uint256> {
     let mut total: BTreeMap<String, Uint256> = BTreeMap::new();
     for m in msgs {
-        if let CosmosMsg::Bank(BankMsg::Send { amount, .. }) = m {
+        // (native tokens a relayed message takes out of the proxy: sent away or burned)
+        if let CosmosMsg::Bank(BankMsg::Send { amount, .. }) | CosmosMsg::Bank(BankMsg::Burn { amount }) = m {
             for c in amount {
                 *total.entry(c.denom.clone()).or_insert(Uint256::zero()) += Uint256::from(c.amount);
             }
@@ -1127,6 +1128,11 @@ pub fn run_case(prop: &str, case: &Case, ctx: &mut CaseCtx) -> Result<(), Violat
                     Amt::Frac(k) => frac(have, *k),
                 };
                 let coin = Coin { denom: denom.to_string(), amount: Uint128::new(x) };
+                // (every fourth grant call comes with coins attached - at least the amount it names, in the same
+                // denomination: paying the proxy gives nobody a say over allowances)
+                if step_no % 4 == 1 && x > 0 {
+                    step_funds = vec![Coin { denom: denom.to_string(), amount: Uint128::new(x.saturating_add((step_no % 2) as u128)) }];
+                }
                 let e = exp.map(|e| e.resolve_ns(w.d.height, w.d.now_ns()));
                 let call = if matches!(op, Op::Increase { .. }) { Call::Increase { spender: sp_str, coin, exp: e } } else { Call::Decrease { spender: sp_str, coin, exp: e } };
                 Step { call, sender, target, kinds: vec![] }
